@@ -290,6 +290,15 @@ theorem correction_self_consistent (B : Params ℝ) (fuel : ℕ) (e_kin : ℝ)
     · rw [h3, h2, h1]
     · rw [h1]; exact (herr_ge_brillouin B _ hI hb hE ht).1
 
+/-- **continuity at the beam edge, both branches**: the quadratic (inner) branch evaluated at `r = r_e` equals the
+logarithmic (outer) branch there, and the inner branch tends to that value: for `r < r_e` the two differ by `1 − (r/r_e)²` -/
+theorem profile_branches_meet (B : Params ℝ) (r_e r : ℝ) (hre : 0 < r_e) (hr : r < r_e) :
+    2 * Real.log (r_e / B.r_d) + (r_e / r_e) ^ 2 - 1 = 2 * Real.log (r_e / B.r_d) ∧
+    multip B r_e r_e - multip B r_e r = 1 - (r / r_e) ^ 2 := by
+  refine ⟨by rw [div_self hre.ne']; ring, ?_⟩
+  simp only [multip, lit_real, powN_real, Transc.log_real, Nat.cast_ofNat, Nat.cast_one, lt_irrefl, if_false, hr, if_true]
+  ring
+
 -- non-vacuity
 example : (0:ℝ) < 1e-4 ∧ (1e-4:ℝ) < 5e-3 ∧ (0:ℝ) ≤ 2e-4 ∧ (2e-4:ℝ) < 5e-3 := by norm_num
 end C20
